@@ -3,8 +3,11 @@
    writer : directory snapshots before a library writer is called, after the call, and after DeferredFileWriter.write()
             - Untouched (nothing changes before finalisation) and Finalised (destinations written, pre-existing
             destinations kept byte for byte under the first free backup name, nothing else changed)
-   gate   : one real bin/martinize2 run: warnings logged (by type), records above WARNING, the -maxwarn entries, the exit
-            code and what happened to the directory - against Gate of DeferredWriter with l = LeftoverDecl (WarnCountOps) *)
+   gate   : one real bin/martinize2 run AS A SUBPROCESS: warnings logged (by type), records above WARNING, the -maxwarn
+            entries, the exit code of the process, what happened to the directory and what is left in the directory of
+            temporary files ($TMPDIR) after the process has gone - against Gate of DeferredWriter with
+            l = LeftoverDecl (WarnCountOps).  (In-process runs with recorded opens, crash points and the full directory
+            comparison are judged by DeferredWriterJudge.) *)
 EXTENDS WarnCountOps, TLC, Json, IOUtils
 
 Batch == JsonDeserialize(IOEnv.TRACE_FILE)
@@ -39,10 +42,12 @@ JudgeGate(e) ==
   IF left > 0
   THEN IF e.exit = 0 THEN "warnings-left-but-exit-0"
        ELSE IF e.new # <<>> \/ e.changed # <<>> \/ e.lost # <<>> THEN "refused-run-touched-the-directory"
+       ELSE IF e.tmp_left # <<>> THEN "refused-run-left-its-temporary-files-behind"
        ELSE "ok"
   ELSE IF e.exit # 0 THEN "all-warnings-waived-but-run-refused"
        ELSE IF ~e.outs_present THEN "accepted-run-without-output"
        ELSE IF e.lost # <<>> \/ ~e.backups_ok THEN "accepted-run-lost-a-pre-existing-file"
+       ELSE IF e.tmp_left # <<>> THEN "accepted-run-left-temporary-files-behind"
        ELSE "ok"
 
 Init == tid \in 1..Len(Batch) /\ verdict = "pending"
